@@ -310,24 +310,50 @@ func checkStringOrElementFunction(stringOrElement string, token Token) (out pr.C
 // HasVar returns true if [token] is a var(...),
 // or is a function with any var()
 func HasVar(token Token) bool {
-	name, args := pa.ParseFunction(token)
-	if name == "" {
+	fn, ok := token.(pa.FunctionBlock)
+	if !ok {
 		return false
 	}
-	if name == "var" && len(args) != 0 {
-		// TODO: we should check authorized tokens
-		// https://drafts.csswg.org/css-syntax-3/#typedef-declaration-value
-		ident, ok := args[0].(pa.Ident)
-		return ok && strings.HasPrefix(ident.Value, "--")
+	if utils.AsciiLower(fn.Name) == "var" {
+		name, _ := ParseVar(fn)
+		return name != ""
 	}
 
 	// recurse
-	for _, arg := range args {
+	for _, arg := range fn.Arguments {
 		if HasVar(arg) {
 			return true
 		}
 	}
 	return false
+}
+
+// ParseVar returns the custom property name and the fallback value of
+// a var( <custom-property-name> [, <declaration-value>? ]? ) function,
+// or an empty name if [token] is not such a function.
+// The fallback is everything after the first comma, and may itself contain commas.
+func ParseVar(token Token) (name string, fallback []Token) {
+	fn, ok := token.(pa.FunctionBlock)
+	if !ok || utils.AsciiLower(fn.Name) != "var" {
+		return "", nil
+	}
+	args := pa.RemoveWhitespace(fn.Arguments)
+	if len(args) == 0 {
+		return "", nil
+	}
+	// TODO: we should check authorized tokens
+	// https://drafts.csswg.org/css-syntax-3/#typedef-declaration-value
+	ident, ok := args[0].(pa.Ident)
+	if !ok || !strings.HasPrefix(ident.Value, "--") {
+		return "", nil
+	}
+	if len(args) == 1 {
+		return ident.Value, nil
+	}
+	if !pa.IsLiteral(args[1], ",") {
+		return "", nil
+	}
+	return ident.Value, args[2:]
 }
 
 func checkAttrFunction(token pa.FunctionBlock, allowedType string) (out pr.AttrData) {
